@@ -23,8 +23,9 @@ def gap_Y(run, cfgs, rotors, n_samples, big_m=False):
     rng = run.rng
     worst = 0.0
     worst_sum = 0.0
-    for (L, P, spins) in cfgs:
-        w = spherical.Wigner(L, mp_max=P)
+    for cfg in cfgs:
+        (L, P, spins), emin = cfg[:3], (cfg[3] if len(cfg) > 3 else 0)
+        w = spherical.Wigner(L, ell_min=emin, mp_max=P)
         batch = {}
         for s in spins:   # the same rotors in ONE vectorised call: each slice must be the single-rotor result
             try:
@@ -42,7 +43,7 @@ def gap_Y(run, cfgs, rotors, n_samples, big_m=False):
                 except Exception as e:
                     run.violation("sYlm-raised", "Wigner.sYlm", {"ell_max": L, "mp_max": P, "s": s, "R": list(R), **band_info(R)}, "values", repr(e))
                     continue
-                inp = {"ell_max": L, "mp_max": P, "s": s, "R": list(R), **band_info(R)}
+                inp = {"ell_max": L, "ell_min": emin, "mp_max": P, "s": s, "R": list(R), **band_info(R)}
                 if i_rot < 3 and L <= 64:
                     # the same request through an explicit workspace holding arbitrary previous content (np.empty garbage may be NaN)
                     for fill in (float("nan"), 1e300):
@@ -58,28 +59,30 @@ def gap_Y(run, cfgs, rotors, n_samples, big_m=False):
                     i = int(np.flatnonzero(~np.isfinite(Y))[0])
                     run.violation("sYlm-not-finite", "Wigner.sYlm", {**inp, "flat_index": i}, "finite", str(Y[i]))
                     continue
-                nlow = abs(s) ** 2
+                off = emin ** 2          # the array starts at ell = ell_min
+                nlow = max(abs(s) ** 2 - off, 0)
                 if np.any(Y[:nlow] != 0):
                     run.violation("sYlm-nonzero-below-|s|", "Wigner.sYlm", inp, "exact zeros", "nonzero")
                 # addition theorem for every ell
                 idx = 0
                 a2 = np.abs(Y) ** 2
                 cs = np.concatenate([[0.0], np.cumsum(a2)])
-                ells = np.arange(L + 1)
-                tot = cs[(ells + 1) ** 2] - cs[ells ** 2]
+                ells = np.arange(emin, L + 1)
+                tot = cs[(ells + 1) ** 2 - off] - cs[ells ** 2 - off]
                 want = (2 * ells + 1) / (4 * math.pi)
                 rel = np.abs(tot / want - 1.0)
                 rel[ells < abs(s)] = 0.0
                 # cumulative-sum differencing costs ~ L*eps itself; recompute the worst ell directly
-                lw = int(np.argmax(rel / ((ells + 1) * EPS)))
-                direct = float(np.sum(a2[lw ** 2:(lw + 1) ** 2])) / want[lw] - 1.0 if lw >= abs(s) else 0.0
+                iw = int(np.argmax(rel / ((ells + 1) * EPS)))
+                lw = int(ells[iw])
+                direct = float(np.sum(a2[lw ** 2 - off:(lw + 1) ** 2 - off])) / want[iw] - 1.0 if lw >= abs(s) else 0.0
                 r = abs(direct) / ((lw + 1) * EPS)
                 worst_sum = max(worst_sum, r)
                 run.gap_case("addition-theorem", (L, P, s, R), lab, {"ell_max": L, "s": s, "R": list(R), "worst_ell": lw, "rel_over_(ell+1)eps": round(r, 3)})
                 if not (r <= K_SUM):
                     run.violation("addition-theorem-fails", "Wigner.sYlm", {**inp, "ell": lw}, "sum_m |Y|^2 = (2l+1)/4pi", f"relative deviation {direct}")
                 # oracle samples
-                ells_s = sorted(set([abs(s), min(L, abs(s) + 1), L // 2, L]) | {rng.randint(abs(s), L) for _ in range(2)}) if L >= abs(s) else []
+                ells_s = sorted(e for e in (set([abs(s), min(L, abs(s) + 1), emin, emin + 1, L // 2, L]) | {rng.randint(abs(s), L) for _ in range(2)}) if e >= emin) if L >= abs(s) else []
                 k = 0
                 for ell in ells_s:
                     if ell < abs(s) or ell > L:
@@ -89,7 +92,7 @@ def gap_Y(run, cfgs, rotors, n_samples, big_m=False):
                         ms = {int(0.6 * ell), -int(0.8 * ell), ell - 1, rng.randint(ell // 2, ell)}
                     for m in list(ms)[:max(1, n_samples)]:
                         ex = oracle.sYlm_exact(s, ell, m, R)
-                        got = Y[ell * (ell + 1) + m]
+                        got = Y[ell * (ell + 1) + m - off]
                         e = oracle.err(ex, got) / math.sqrt((2 * ell + 1) / (4 * math.pi))
                         rel_e = e / ((ell + 1) * EPS)
                         worst = max(worst, rel_e)
@@ -119,6 +122,7 @@ def check(run):
     gap_Y(run, [(8, 8, list(range(-8, 9)))], rotors, 3)
     gap_Y(run, [(48, 6, [-6, -3, -2, 0, 1, 5])], rotors[::2], 2)
     gap_Y(run, [(12, 3, [-3, 2])], subnormal_band_rotors(), 2)
+    gap_Y(run, [(8, 3, [-3, 0, 2], 1), (8, 8, [-2, 1], 2), (9, 4, [0, -4], 5), (6, 2, [2], 6)], rotors[::3], 2)     # sYlm arrays that start at ell_min > 0
     runs = [(f"near-pole-run-{k}", (math.cos(0.2 * k), (1 + 2 * k) * 1e-9, -(1 + k) * 1e-9, math.sin(0.2 * k))) for k in range(4)] + \
            [(f"antipole-run-{k}", ((1 + k) * 2e-9, math.cos(0.3 * k), math.sin(0.3 * k), (1 + k) * 1e-9)) for k in range(3)]
     gap_Y(run, [(40, 2, [-2, 0, 1])], runs, 3)
@@ -138,11 +142,11 @@ def replay(body):
     import spherical
     import quaternionic
     inp = body["input"]
-    w = spherical.Wigner(inp["ell_max"], mp_max=inp["mp_max"])
+    w = spherical.Wigner(inp["ell_max"], ell_min=inp.get("ell_min", 0), mp_max=inp["mp_max"])
     Y = w.sYlm(inp["s"], quaternionic.array(inp["R"]))
     if "m" in inp:
         ell, m = inp["ell"], inp["m"]
-        print("implementation:", Y[ell * (ell + 1) + m], " definition:", oracle.to_complex(oracle.sYlm_exact(inp["s"], ell, m, inp["R"])))
+        print("implementation:", Y[ell * (ell + 1) + m - inp.get("ell_min", 0) ** 2], " definition:", oracle.to_complex(oracle.sYlm_exact(inp["s"], ell, m, inp["R"])))
     else:
         print("finite:", bool(np.all(np.isfinite(Y))))
     return 0
